@@ -84,6 +84,12 @@ def make_spec(rng, pt, pf, ps, fn, sr, pbh, strat, hdr, size):
     if sr is not None:
         spec["source"]["as_table"] = sr == "table"
     spec["body"]["pageby_header"] = pbh
+    # page header / footer with several lines and per-line attributes (alignment, font, size ...): still ONE
+    # destination each
+    if rng.random() < 0.35:
+        spec["page_header"] = G.gen_text_comp(rng, "PH", lines=rng.choice([1, 2, 3]), rich=0.7)
+    if rng.random() < 0.35:
+        spec["page_footer"] = G.gen_text_comp(rng, "PF", lines=rng.choice([1, 2, 3]), rich=0.7)
     if rng.random() < 0.4:
         pk = G.gen_page(rng, paper=True, placements=False, borders=False)
         pk.pop("col_width", None)
